@@ -184,6 +184,57 @@ def run(ctx):
                             viol.append({"history_hex": [first.hex()], "history": [first.decode("latin-1")], "input_hex": probe.hex(), "input": probe.decode("latin-1"),
                                          "what": "outcome depends on history: after a use of %s %s, `%s %s` gives %s; in a pristine interpreter %s" % (
                                              da["name"], tag, db["name"], tag, a[:80], alone[:80])})
+    # a REFUSED use of each command (first argument of the wrong kind: number, unknown tag, string, list, test), then valid uses of
+    # the same command — on the same Parser and on a fresh one: what a command accepts, and where it files its arguments, is
+    # fixed by its definition, not by what was tried before (reference: the history-free Lean model, and for a sample the
+    # pristine interpreter)
+    def use_of(d):
+        need = set()
+        toks, reqs = g2.args(d, need)
+        body = [d["name"].encode()] + toks
+        for ra in reqs:
+            if ra["types"] == ["test"]:
+                body.append(b"true")
+            elif ra["types"] == ["testlist"]:
+                body += [b"(", b"true", b",", b"false", b")"]
+            else:
+                body += g2.required_value(ra)
+        return body
+    refused_cases = []
+    for d in table:
+        if d.get("mustFollow") or d.get("special") not in (None, "none") or d["name"] in ("require",):
+            continue
+        uses = []
+        for _ in range(3):
+            b_ = b" ".join(use_of(d))
+            if d["kind"] == "test":
+                uses.append(req_all + b"if " + b_ + b" { keep; }")
+            elif d["acceptChildren"]:
+                uses.append(req_all + b_ + b" { keep; }")
+            else:
+                uses.append(req_all + b_ + b";")
+        for bad in (b"10", b":nosuchtag", b'"s"', b'["a","b"]', b"true", b":comparator"):
+            head = d["name"].encode() + b" " + bad
+            first = req_all + (b"if " + head + b" { keep; }" if d["kind"] == "test" else head + (b" { keep; }" if d["acceptChildren"] else b";"))
+            refused_cases.append((d["name"], first, uses))
+    probe_set = sorted({u for _, _, us in refused_cases for u in us})
+    probe_model = dict(zip(probe_set, run_driver(["parse " + hx(t) for t in probe_set])))
+    for cname, first, uses in refused_cases:
+        for same_parser in (True, False):
+            p1 = Parser()
+            a1 = pyref.parse_answer(first, parser=p1)
+            for u in uses:
+                a = pyref.parse_answer(u, parser=(p1 if same_parser else Parser()))
+                evals += 1
+                nontriv += 1
+                if a != probe_model[u]:
+                    alone = pristine_one(u)
+                    if a != alone:
+                        viol.append({"history_hex": [first.hex()], "history": [first.decode("latin-1")], "input_hex": u.hex(), "input": u.decode("latin-1"),
+                                     "what": "outcome depends on history: after the refused %r (%s) a use of %s gives %s; in a pristine interpreter %s" % (
+                                         first.decode("latin-1")[-50:], a1[:40], cname, a[:100], alone[:100])})
+                    else:
+                        diffs.append({"suite": "hist", "history_hex": [first.hex()], "input_hex": u.hex(), "input": u.decode("latin-1"), "impl": a[:300], "model": probe_model[u][:300]})
     # loading a parsed script into a FiltersSet must use THAT script, whatever was parsed (by another object) in between
     from sievelib.factory import FiltersSet
     A = b'require ["fileinto", "copy"];\n# Filter: one\nif anyof (header :is "Subject" "x") {\n    fileinto :copy "F";\n}\n'
